@@ -107,6 +107,12 @@ type FnEnc struct {
 	ghosts   map[string]HeapVar
 	bags     *bagState
 	returnEnsuresBound map[int]int
+	// inlining of small module helpers that have no contract (inline.go)
+	parent     *FnEnc
+	entryGuard string
+	rets       []retInfo
+	pure       bool // term mode (pureEval): definitions are substituted, nothing is emitted
+	impure     bool // term mode met something that needs a declaration, an assumption-free reading does not exist
 }
 
 type localRef struct {
@@ -135,7 +141,15 @@ type debugBinding struct {
 	addr  bool
 }
 
-func (e *FnEnc) emit(s string) { e.script = append(e.script, s) }
+func (e *FnEnc) emit(s string) {
+	if e.pure {
+		if strings.HasPrefix(s, "(declare-") {
+			e.impure = true
+		}
+		return // facts are dropped in term mode: fewer assumptions
+	}
+	e.script = append(e.script, s)
+}
 
 func (e *FnEnc) freshName(prefix string) string {
 	e.fresh++
@@ -149,6 +163,9 @@ func (e *FnEnc) declare(prefix, sort string) string {
 }
 
 func (e *FnEnc) define(prefix, sort, term string) string {
+	if e.pure {
+		return term
+	}
 	n := e.freshName(prefix)
 	e.emit(fmt.Sprintf("(define-fun %s () %s %s)", n, sort, term))
 	return n
@@ -177,6 +194,10 @@ func (e *FnEnc) assumeUnder(g, fact string) {
 }
 
 func (e *FnEnc) oblige(o *Obligation) {
+	if e.pure {
+		e.impure = true
+		return
+	}
 	// (loop frames are assumed at the loop header whatever the property, so they are proved whatever the property)
 	if e.con != nil && len(o.Tags) == 0 && o.Kind != "cover" && o.Kind != "bind" && !(o.Kind == "frame" && strings.HasPrefix(o.Name, "loop")) {
 		for _, p := range e.con.ProtocolOnly {
